@@ -25,6 +25,8 @@ established the code is left as it is (the recognisers then see an unknown shape
           includes the whole of a loop that contains a use and starts after the store).  If <rhs> contains a call the
           name must be used exactly once, not inside a loop / lambda / comprehension, and additionally no call other
           than numpy / builtin pure ones and no store related in either direction may lie in between.
+ counter  `i = 0` .. `for t in it: body; i += 1` (i stored nowhere else, not read after the loop, no `continue`)
+          ->  `for i, t in enumerate(it): body`.
  unroll   `for x in (<constants>): body`  (x not stored in the body, no break/continue left, no else) -> the body once
           per constant with x replaced.
  fold     comparisons of two constants, `and` / `or` / `not` with constant operands, `if <constant>:`,
@@ -204,6 +206,7 @@ class Normaliser:
             self._guards(fn)
             self._fold(fn)
             self._alias(fn)
+            self._enumerate(fn)
             self._unroll(fn)
             self._fold(fn)
             if ast.dump(fn) == before:
@@ -654,6 +657,50 @@ class Normaliser:
                     return False
         return True
 
+    # -- manual counter -> enumerate
+    def _enumerate(self, fn):
+        for owner, f, b in list(blocks_of(fn)):
+            for k, st in enumerate(b):
+                if not (isinstance(st, ast.Assign) and len(st.targets) == 1 and isinstance(st.targets[0], ast.Name)
+                        and isinstance(st.value, ast.Constant) and type(st.value.value) is int):
+                    continue
+                x, start = st.targets[0].id, st.value.value
+                mention = lambda s_: any(isinstance(n, ast.Name) and n.id == x for n in ast.walk(s_))  # noqa: E731
+                j = next((j for j in range(k + 1, len(b)) if mention(b[j])), None)
+                if j is None or not isinstance(b[j], ast.For) or b[j].orelse:
+                    continue
+                loop = b[j]
+                last = loop.body[-1] if loop.body else None
+                inc = (isinstance(last, ast.AugAssign) and isinstance(last.op, ast.Add) and isinstance(last.target, ast.Name)
+                       and last.target.id == x and isinstance(last.value, ast.Constant) and last.value.value == 1
+                       and type(last.value.value) is int) or \
+                      (isinstance(last, ast.Assign) and len(last.targets) == 1 and ast.unparse(last.targets[0]) == x
+                       and ast.unparse(last.value) in (f"{x} + 1", f"1 + {x}"))
+                if not inc or len(loop.body) < 2:
+                    continue
+                stores = [n for n in ast.walk(fn) if isinstance(n, ast.Name) and n.id == x
+                          and not isinstance(n.ctx, ast.Load)]
+                if len(stores) != 2:                       # the initialisation and the increment
+                    continue
+                if any(mention(s_) for s_ in b[j + 1:]) or any(mention(s_) for s_ in [loop.target, loop.iter]):
+                    continue                               # after the loop the two spellings leave different values
+                if any(isinstance(n, ast.Continue) for s_ in loop.body for n in ast.walk(s_)):
+                    continue
+                # the block must not itself be inside a loop (the counter would be re-initialised: fine) -- but x must not
+                # be read before its initialisation in an enclosing loop: it has only these two stores, so any such read
+                # would see the previous round's value; refuse if x is read before st in the function
+                order = preorder(fn)
+                if any(isinstance(n, ast.Name) and n.id == x and order[id(n)] < order[id(st)] for n in ast.walk(fn)):
+                    continue
+                loop.body = loop.body[:-1]
+                it = ast.Call(ast.Name("enumerate", ast.Load()), [loop.iter],
+                              [] if start == 0 else [ast.keyword("start", ast.Constant(start))])
+                loop.target = ast.Tuple([ast.Name(x, ast.Store()), loop.target], ast.Store())
+                loop.iter = it
+                del b[k]
+                self.log.append(f"enumerate:{x}")
+                return self._enumerate(fn)
+
     # -- loops over constant tuples
     def _unroll(self, fn):
         for owner, f, b in list(blocks_of(fn)):
@@ -1005,6 +1052,18 @@ class Box:
         acc = {}
         acc[1] = out
         return (out, acc)
+    def s_counter(self, vs):                            # expect: enumerate:i
+        i = 0
+        for v in vs:
+            self.log.append((i, v))
+            i += 1
+        return self.log
+    def s_counter_read_after(self, vs):                 # expect: !enumerate:i
+        i = 0
+        for v in vs:
+            self.log.append((i, v))
+            i += 1
+        return i
     def s_match(self, x):                               # expect: match
         match x:
             case 1 | 2:
@@ -1038,7 +1097,7 @@ _INPUTS = {
     "s_alias_call_moved": [(1,)], "s_alias_loop": [([1, 2],)], "s_named": [(1,)], "s_continue": [([1, 2, 3],)],
     "s_unroll": [(True,), (False,), (0,), ("x",)], "s_chain": [(0,), (1,), (5,), (6,)],
     "s_chain2": [(1, 2), (0, 2), (3, 2), (3, 10)], "s_ifexp": [(0,), (1,), ("",), ([1],)],
-    "s_inverted": [(0,), (1,)], "s_fresh_object": [([1, 2],)], "s_match": [(1,), (2,), ("big",), (None,)], "s_early_return": [(True,), (False,)],
+    "s_inverted": [(0,), (1,)], "s_counter": [([],), ([5, 6],)], "s_counter_read_after": [([],), ([5, 6],)], "s_fresh_object": [([1, 2],)], "s_match": [(1,), (2,), ("big",), (None,)], "s_early_return": [(True,), (False,)],
     "s_value_helper": [(7,)], "s_expr_helper": [(2,), ("a",)], "s_method_helper": [()],
     "s_boolfold": [(0,), (1,), ("",), ([],)],
 }
